@@ -744,7 +744,10 @@ class TextXMetaModel(DebugPrinter):
                 )
 
             model = self._parser_blueprint.clone().get_model_from_str(
-                model_str, debug=debug, pre_ref_resolution_callback=kwargs_callback
+                model_str,
+                debug=debug,
+                pre_ref_resolution_callback=kwargs_callback,
+                encoding=encoding,
             )
 
             try:
